@@ -215,6 +215,85 @@ class FrozenKey(frozenset):
         return super().__new__(cls, (a, b))
 
 
+# ---------------------------------------------------------------------------
+# containers with a deletion of their own: the effect of delete() is the effect of the plain `del` - whatever the spelling
+
+class ReadOnlyMap(dict):
+    def __delitem__(self, key):
+        raise RuntimeError('this mapping is read-only')
+
+
+class LowerKeys(dict):
+    """keys are stored lower-case; del d['A'] removes 'a'"""
+    def __delitem__(self, key):
+        dict.__delitem__(self, key.lower())
+
+
+class Audited(dict):
+    def __init__(self, *a, **kw):
+        dict.__init__(self, *a, **kw)
+        self.log = []
+
+    def __delitem__(self, key):
+        self.log.append(key)
+        dict.__delitem__(self, key)
+
+
+class AuditedList(list):
+    log = ()
+
+    def __delitem__(self, i):
+        self.log = self.log + (i,)
+        list.__delitem__(self, i)
+
+
+OWN_DELETION = {
+    'read-only-mapping': (lambda: ReadOnlyMap(a=1, b=2), 'a'),
+    'lower-casing-mapping': (lambda: LowerKeys(a=1, b=2), 'A'),
+    'lower-casing-mapping-missing': (lambda: LowerKeys(a=1), 'Q'),
+    'audited-mapping': (lambda: Audited(a=1, b=2), 'a'),
+    'audited-list': (lambda: AuditedList([1, 2, 3]), 1),
+}
+
+
+def run_own_deletion(case):
+    name, spelling, nested, ignore = case
+    mk, key = OWN_DELETION[name]
+    ref, obj = mk(), mk()
+    try:
+        del ref[key]
+        want = 'ok'
+    except (KeyError, IndexError):
+        want = 'ok' if ignore else 'error'
+    except Exception:
+        want = 'error'
+    target = {'o': obj} if nested else obj
+    if spelling == 'text':
+        path = ('o.%s' % key) if nested else str(key)
+    elif spelling == 'path':
+        path = Path('o', key) if nested else Path(key)
+    else:
+        path = T['o'][key] if nested else T[key]
+    try:
+        delete(target, path, ignore_missing=ignore)
+        got = 'ok'
+    except GlomError:
+        got = 'error'
+    except Exception as e:
+        got = 'error' if want == 'error' else 'exception %r' % (e,)
+    state = lambda o: (list(o.items()) if isinstance(o, dict) else list(o), list(getattr(o, 'log', ())))
+    if ignore and spelling in ('text', 'path') and want == 'error' and got == 'ok':
+        got = 'error'        # tolerated (see ASSUMPTIONS): a handler reached through a path string may be silent about a fault under ignore_missing
+    if got != want or state(obj) != state(ref):
+        return R({'expected': '%s, container %r' % (want, state(ref)), 'observed': '%s, container %r' % (got, state(obj)), 'case': name, 'path': repr(path),
+                  'ignore_missing': ignore}, 'own-deletion')
+    return R(None, want, nontrivial=True, steps=1, tags={name, spelling})
+
+
+def gen_own_deletion():
+    return [[n, sp, nested, ig] for n in OWN_DELETION for sp in ('text', 'path', 'T') for nested in (False, True) for ig in (False, True)]
+
+
 def dyn_target():
     return {'key': 'x', 'idx': 1, 'first': 'a', 'a': {'x': 5, 'y': 6}, 'l': [10, 20, 30], 'o': MR.Obj(x=1),
             'm': {('x', 2): {'z': 7, 'w': 8}, ('y', 2): {'z': 9}}, 'rows': [{'x': 1, 'y': 2}, {'x': 3, 'y': 4}, {'x': 5}], 'n': 0, 'ykey': 'y',
@@ -349,6 +428,10 @@ def subs(tier, only=None):
         out.append(Sub('delete-reuse', gen_reuse(tier), run_reuse,
                        rule='case = (path, ignore_missing, sequence of 2-3 targets whose parent is a dict / list / object / None): ONE Delete object applied to '
                             'each in turn equals a fresh Delete every time', min_nontrivial=100, min_outcomes=1))
+    if only in (None, 'containers-with-their-own-deletion'):
+        out.append(Sub('containers-with-their-own-deletion', gen_own_deletion(), run_own_deletion,
+                       rule='case = (dict / list subclass overriding __delitem__: read-only, key-normalising, logging; text | Path | T spelling; direct | nested; ignore_missing): '
+                            'outcome and final container state (log included) equal those of the plain del', min_nontrivial=50, min_outcomes=2))
     if only in (None, 'dynamic-keys'):
         out.append(Sub('dynamic-keys', gen_dynamic_keys(('delete',)), run_dynamic_keys,
                        rule='case = (path whose last / middle / only key is a T or Spec expression evaluated against the target, function | spec form): the effect '
